@@ -21,24 +21,6 @@ func c07less() func(a, b int) bool {
 	return typ.Less[int]
 }
 
-// c07state builds an arbitrary valid Sorted: n symbolic values assumed ordered under less,
-// with 0..E spare capacity in the backing slice.
-func c07state() (*Sorted[int], []int, func(a, b int) bool) {
-	less := c07less()
-	n := vChoose("n", vParam("N")+1)
-	e := vChoose("spare", vParam("E")+1)
-	full := make([]int, n+e)
-	for i := range full {
-		full[i] = vInt("s")
-	}
-	sl := full[:n]
-	for i := 1; i < n; i++ {
-		vAssume(!less(sl[i], sl[i-1]))
-	}
-	snap := append([]int(nil), sl...)
-	return &Sorted[int]{slice: sl, less: less}, snap, less
-}
-
 func c07sorted(s *Sorted[int], less func(a, b int) bool, label string) {
 	for j := 1; j < s.Len(); j++ {
 		vAssert(!less(s.Get(j), s.Get(j-1)), label)
@@ -51,120 +33,6 @@ func c07count(s *Sorted[int], p int) int {
 		c += vB2I(s.Get(j) == p)
 	}
 	return c
-}
-
-func VHSortedAdd() {
-	s, old, less := c07state()
-	n := len(old)
-	v := vInt("v")
-	idx := s.Add(v)
-	vAssert(s.Len() == n+1, "Add: Len grows by one")
-	vAssert(vAnd(0 <= idx, idx <= n), "Add: returned position is within the new slice")
-	if idx < 0 || idx > n {
-		return
-	}
-	for j := 0; j <= n; j++ {
-		exp := v
-		if j < idx {
-			exp = old[j]
-		} else if j > idx {
-			exp = old[j-1]
-		}
-		vAssert(s.Get(j) == exp, "Add: the new value sits at the returned position, everything else keeps its order")
-	}
-	c07sorted(s, less, "Add: contents stay ordered under less")
-	if n >= 2 && idx == 1 {
-		vCover("add in the middle")
-	}
-}
-
-func VHSortedIndexRemove() {
-	s, old, less := c07state()
-	n := len(old)
-	v := vInt("v")
-	// Index / Contains
-	r := s.Index(v)
-	vAssert(s.Contains(v) == (r != -1), "Contains agrees with Index")
-	present := false
-	for j := 0; j < n; j++ {
-		present = vOr(present, old[j] == v)
-	}
-	vAssert((r != -1) == present, "Index is -1 exactly when the value is absent")
-	if r != -1 {
-		vAssert(vAnd(0 <= r, r < n), "Index is a valid position")
-		if r >= 0 && r < n {
-			vAssert(old[r] == v, "Index points at the value")
-			for j := 0; j < r; j++ {
-				vAssert(old[j] != v, "Index is the first position holding the value")
-			}
-		}
-	}
-	// Remove
-	got := 0
-	p := vPanics(func() { got = s.Remove(v) })
-	vAssert(!p, "Remove never panics (absent values included)")
-	if p {
-		return
-	}
-	if got == -1 {
-		vAssert(!present, "Remove returns -1 only when the value is absent")
-		vAssert(s.Len() == n, "Remove(absent) leaves Len unchanged")
-		for j := 0; j < n && j < s.Len(); j++ {
-			vAssert(s.Get(j) == old[j], "Remove(absent) changes nothing")
-		}
-		vCover("remove absent")
-		return
-	}
-	vAssert(present, "Remove reports a position only when the value is present")
-	vAssert(vAnd(0 <= got, got < n), "Remove returns a valid former position")
-	if got < 0 || got >= n {
-		return
-	}
-	vAssert(old[got] == v, "Remove returns a position that held the value")
-	vAssert(s.Len() == n-1, "Remove deletes exactly one occurrence")
-	for j := 0; j < n-1 && j < s.Len(); j++ {
-		exp := old[j]
-		if j >= got {
-			exp = old[j+1]
-		}
-		vAssert(s.Get(j) == exp, "Remove keeps every other element in order")
-	}
-	c07sorted(s, less, "Remove: contents stay ordered under less")
-	if n >= 2 {
-		vCover("remove present, n >= 2")
-	}
-}
-
-func VHSortedAt() {
-	s, old, less := c07state()
-	n := len(old)
-	i := vInt("i")
-	in := vAnd(0 <= i, i < n)
-	g := 0
-	p := vPanics(func() { g = s.Get(i) })
-	vAssert(p == !in, "Get panics exactly for positions outside [0,Len)")
-	if !p {
-		for j := 0; j < n; j++ {
-			vAssert(vImplies(i == j, g == old[j]), "Get returns the element at the position")
-		}
-	}
-	p = vPanics(func() { s.RemoveAt(i) })
-	vAssert(p == !in, "RemoveAt panics exactly for positions outside [0,Len)")
-	if p {
-		vAssert(s.Len() == n, "a panicking RemoveAt changes nothing")
-		for j := 0; j < n && j < s.Len(); j++ {
-			vAssert(s.Get(j) == old[j], "a panicking RemoveAt changes nothing")
-		}
-		return
-	}
-	vAssert(s.Len() == n-1, "RemoveAt removes one element")
-	for j := 0; j < n-1 && j < s.Len(); j++ {
-		vAssert(s.Get(j) == vIte(j < i, old[j], old[j+1]), "RemoveAt removes exactly the given position")
-	}
-	c07sorted(s, less, "RemoveAt: contents stay ordered under less")
-	if n >= 2 {
-		vCover("removeat n >= 2")
-	}
 }
 
 func VHNewSorted() {
@@ -195,7 +63,19 @@ func VHNewSorted() {
 	for j := range full {
 		vAssert(full[j] == snap[j], "NewSorted does not reorder or overwrite its input")
 	}
-	vAssert(!vSameArray(s.slice, full), "NewSorted copies its input")
+	// not aliased: overwriting the caller's slice afterwards does not change the Sorted
+	// (observed through the public API only)
+	before := make([]int, s.Len())
+	for j := range before {
+		before[j] = s.Get(j)
+	}
+	for j := range full {
+		full[j] = vInt("overwrite")
+	}
+	for j := range before {
+		vAssert(s.Get(j) == before[j], "NewSorted copies its input: later writes to the caller's slice do not reach the Sorted")
+	}
+	copy(full, snap)
 	s.Add(vInt("v"))
 	if n > 0 {
 		s.RemoveAt(0)
@@ -463,4 +343,147 @@ func VHSortedString() {
 	var z Sorted[int]
 	vAssert(len(vParseInts(z.String())) == 0, "String of an empty Sorted lists nothing")
 	vCover("sorted string done")
+}
+
+// c07direct is set by the white-box file c07wb.go (when it compiles against the tree): it places a
+// state directly in Sorted's representation. Without it every state is built with NewSorted.
+var c07direct func(sl []int, less func(a, b int) bool) *Sorted[int]
+
+// c07state builds an arbitrary valid Sorted: n symbolic values assumed ordered under less,
+// with 0..E spare capacity in the backing slice (white-box mode only).
+func c07state() (*Sorted[int], []int, func(a, b int) bool) {
+	less := c07less()
+	n := vChoose("n", vParam("N")+1)
+	e := vChoose("spare", vParam("E")+1)
+	full := make([]int, n+e)
+	for i := range full {
+		full[i] = vInt("s")
+	}
+	sl := full[:n]
+	for i := 1; i < n; i++ {
+		vAssume(!less(sl[i], sl[i-1]))
+	}
+	snap := append([]int(nil), sl...)
+	if c07direct != nil && vParam("API") == 0 {
+		// white-box: the state is placed directly in the representation, spare capacity included
+		return c07direct(sl, less), snap, less
+	}
+	// black-box: through the constructor (the values are assumed ordered, so its sort decides
+	// every comparison from the path condition and does not fork)
+	s := NewSorted(sl, less)
+	return &s, snap, less
+}
+
+func VHSortedAdd() {
+	s, old, less := c07state()
+	n := len(old)
+	v := vInt("v")
+	idx := s.Add(v)
+	vAssert(s.Len() == n+1, "Add: Len grows by one")
+	vAssert(vAnd(0 <= idx, idx <= n), "Add: returned position is within the new slice")
+	if idx < 0 || idx > n {
+		return
+	}
+	for j := 0; j <= n; j++ {
+		exp := v
+		if j < idx {
+			exp = old[j]
+		} else if j > idx {
+			exp = old[j-1]
+		}
+		vAssert(s.Get(j) == exp, "Add: the new value sits at the returned position, everything else keeps its order")
+	}
+	c07sorted(s, less, "Add: contents stay ordered under less")
+	if n >= 2 && idx == 1 {
+		vCover("add in the middle")
+	}
+}
+
+func VHSortedIndexRemove() {
+	s, old, less := c07state()
+	n := len(old)
+	v := vInt("v")
+	// Index / Contains
+	r := s.Index(v)
+	vAssert(s.Contains(v) == (r != -1), "Contains agrees with Index")
+	present := false
+	for j := 0; j < n; j++ {
+		present = vOr(present, old[j] == v)
+	}
+	vAssert((r != -1) == present, "Index is -1 exactly when the value is absent")
+	if r != -1 {
+		vAssert(vAnd(0 <= r, r < n), "Index is a valid position")
+		if r >= 0 && r < n {
+			vAssert(old[r] == v, "Index points at the value")
+			for j := 0; j < r; j++ {
+				vAssert(old[j] != v, "Index is the first position holding the value")
+			}
+		}
+	}
+	// Remove
+	got := 0
+	p := vPanics(func() { got = s.Remove(v) })
+	vAssert(!p, "Remove never panics (absent values included)")
+	if p {
+		return
+	}
+	if got == -1 {
+		vAssert(!present, "Remove returns -1 only when the value is absent")
+		vAssert(s.Len() == n, "Remove(absent) leaves Len unchanged")
+		for j := 0; j < n && j < s.Len(); j++ {
+			vAssert(s.Get(j) == old[j], "Remove(absent) changes nothing")
+		}
+		vCover("remove absent")
+		return
+	}
+	vAssert(present, "Remove reports a position only when the value is present")
+	vAssert(vAnd(0 <= got, got < n), "Remove returns a valid former position")
+	if got < 0 || got >= n {
+		return
+	}
+	vAssert(old[got] == v, "Remove returns a position that held the value")
+	vAssert(s.Len() == n-1, "Remove deletes exactly one occurrence")
+	for j := 0; j < n-1 && j < s.Len(); j++ {
+		exp := old[j]
+		if j >= got {
+			exp = old[j+1]
+		}
+		vAssert(s.Get(j) == exp, "Remove keeps every other element in order")
+	}
+	c07sorted(s, less, "Remove: contents stay ordered under less")
+	if n >= 2 {
+		vCover("remove present, n >= 2")
+	}
+}
+
+func VHSortedAt() {
+	s, old, less := c07state()
+	n := len(old)
+	i := vInt("i")
+	in := vAnd(0 <= i, i < n)
+	g := 0
+	p := vPanics(func() { g = s.Get(i) })
+	vAssert(p == !in, "Get panics exactly for positions outside [0,Len)")
+	if !p {
+		for j := 0; j < n; j++ {
+			vAssert(vImplies(i == j, g == old[j]), "Get returns the element at the position")
+		}
+	}
+	p = vPanics(func() { s.RemoveAt(i) })
+	vAssert(p == !in, "RemoveAt panics exactly for positions outside [0,Len)")
+	if p {
+		vAssert(s.Len() == n, "a panicking RemoveAt changes nothing")
+		for j := 0; j < n && j < s.Len(); j++ {
+			vAssert(s.Get(j) == old[j], "a panicking RemoveAt changes nothing")
+		}
+		return
+	}
+	vAssert(s.Len() == n-1, "RemoveAt removes one element")
+	for j := 0; j < n-1 && j < s.Len(); j++ {
+		vAssert(s.Get(j) == vIte(j < i, old[j], old[j+1]), "RemoveAt removes exactly the given position")
+	}
+	c07sorted(s, less, "RemoveAt: contents stay ordered under less")
+	if n >= 2 {
+		vCover("removeat n >= 2")
+	}
 }
